@@ -63,8 +63,8 @@ func runC12(c *core.Ctx) {
 	}
 	rec(t, false)
 	for _, st := range stagesOf(c, t, e, true) {
-		if st.name == "unknowing" {
-			continue
+		if st.name == "unknowing" || st.name == "partly-unknowing" {
+			continue // retention is claimed between processes that know the types
 		}
 		c.Cover("stage", st.name)
 		var all, event, extras string
